@@ -368,6 +368,14 @@ func (w *World) fieldHeap(structSort *Sort, fi fieldInfo) string {
 
 func (w *World) elemHeap(es *Sort) string {
 	name := "E_" + sanitize(es.Name)
+	// element heaps are separated by Go element type: slices of different element
+	// types never share a backing array
+	switch es.Kind {
+	case KInt, KRef, KChan, KMap, KFunc, KBool, KString, KReal, KIface:
+		if es.Go != nil {
+			name = "E_" + sanitize(es.Name) + "." + goTypeKey(es.Go)
+		}
+	}
 	w.heapSorts[name] = "(Array Int (Array " + w.idxSortName() + " " + es.Name + "))"
 	w.heapValSort[name] = es
 	return name
@@ -468,4 +476,29 @@ func fnv32(s string) uint32 {
 		h *= 16777619
 	}
 	return h%1000000000 + 1
+}
+
+// declFaddr declares the address-of-field function (injective).
+func (w *World) declFaddr() {
+	if w.funDeclared["faddr"] {
+		return
+	}
+	w.declFun("faddr", []string{"Int", "Int"}, "Int")
+	w.funDecls = append(w.funDecls, "(assert (forall ((a Int) (i Int) (b Int) (j Int)) (! (=> (= (faddr a i) (faddr b j)) (and (= a b) (= i j))) :pattern ((faddr a i) (faddr b j)))))")
+}
+
+func goTypeKey(t types.Type) string {
+	t = types.Unalias(t)
+	if b, ok := t.(*types.Basic); ok {
+		switch b.Kind() {
+		case types.Uint8:
+			return "uint8"
+		case types.Int32:
+			return "int32"
+		}
+		return b.Name()
+	}
+	s := types.TypeString(t, func(p *types.Package) string { return p.Name() })
+	r := strings.NewReplacer("*", "p", "[]", "s", "(", "", ")", "", " ", "_", "<-", "to", "{", "", "}", "", ",", "_", "|", "")
+	return r.Replace(s)
 }
